@@ -722,7 +722,7 @@ def tr_canontree(node, meta=None, model='default', mdl=None):
 
 
 # ============================================================ Model.errors (C16)
-def tr_errors(tr, xtop=None, model='default', mdl=None, decoded_from=None):
+def tr_errors(tr, xtop=None, model='default', mdl=None, decoded_from=None, headroom=None):
     """Either a triple list (+ explicit top) or, with decoded_from, a text to decode first."""
     m = get_model(model, mdl)
     warm_model(m, [t[1] for t in tr or []], 'tr_errors')
@@ -732,7 +732,18 @@ def tr_errors(tr, xtop=None, model='default', mdl=None, decoded_from=None):
         g = build_graph(tr, None, xtop)
     t = _mfields({'kind': 'errors', 'g': {'top': ab.atom(g.top), 'xtop': ab.atom(g._top), 'tr': [ab.triple(x) for x in g.triples]},
                   'decoded': decoded_from is not None, 'exc': '', 'errs': []}, model, mdl)
-    ok, r = guarded(m.errors, g)
+    if headroom:
+        # the report is owed for every graph, also one with more nodes than the interpreter has stack frames: the call gets
+        # *headroom* frames above the current depth (the graph is far larger than that)
+        import inspect
+        old_limit = sys.getrecursionlimit()
+        sys.setrecursionlimit(len(inspect.stack()) + headroom)
+        try:
+            ok, r = guarded(m.errors, g)
+        finally:
+            sys.setrecursionlimit(old_limit)
+    else:
+        ok, r = guarded(m.errors, g)
     if not ok:
         t['exc'] = 'Hang' if isinstance(r, Hang) else excname(r)
         return t
@@ -854,7 +865,20 @@ def _start_graph(node, m, start):
         g = pickle.loads(pickle.dumps(g))
     elif start.get('copied') == 'minus-nothing':
         g = g - Graph([('no', ':such', 'triple')])
+    if start.get('subclass'):
+        # a user's subclass of Graph whose constructor takes something else first: still a Graph, and a transformation of it
+        # is the transformation of its triples
+        h = SentenceGraph('the sentence', g.triples, top=g._top, epidata=g.epidata, metadata=g.metadata)
+        g = h
     return g
+
+
+class SentenceGraph(Graph):
+    """A Graph subclass as a user might write it (its constructor does not have Graph's signature)."""
+
+    def __init__(self, sentence, triples=None, top=None, epidata=None, metadata=None):
+        super().__init__(triples, top=top, epidata=epidata, metadata=metadata)
+        self.sentence = sentence
 
 
 _OPS = {'reify_edges': lambda g, m: transform.reify_edges(g, m), 'dereify_edges': lambda g, m: transform.dereify_edges(g, m),
